@@ -224,7 +224,11 @@ def alloc_spaces(X, names, pkg):
             out.append((('alloc', 'iface'), []))
         else:
             ty = resolve_type(w, n, pkg)
-            out.append((('alloc', ty), [('f', ty, f['name']) for f in w.struct_fields(ty)]))
+            hk = [('f', ty, f['name']) for f in w.struct_fields(ty)] if w.sort(ty) != w.Opaque else []
+            gs = X.V.externals.get('ghostspace:' + ty)
+            if gs is not None:
+                hk = list(gs())
+            out.append((('alloc', ty), hk))
     return out
 
 
@@ -237,6 +241,8 @@ def alloc_key_of(key):
         return ('alloc', 'map')
     if key[0] == 'cell':
         return ('alloc', 'cell:' + key[1])
+    if key[0] == 'ghost' and len(key) > 3:
+        return ('alloc', key[3])
     return None
 
 
@@ -287,7 +293,7 @@ def contract_call(X, ins, key, c, argv, iface_sig=None):
         for hk in set(list(targets.keys()) + list(fresh_keys.keys())):
             locs = targets.get(hk)
             oldv = pre.get(hk)
-            if hk[0] in ('g', 'ghost', 'alloc'):
+            if hk[0] in ('g', 'alloc') or (hk[0] == 'ghost' and len(hk) <= 3):
                 post.set(hk, V.fresh_heap_const(hk, tag))
                 continue
             nv = V.fresh_heap_const(hk, tag)
